@@ -71,3 +71,5 @@ package telem
 //@ # count separators): uninterpreted for callers that only branch on it
 //@ pure func (s Series) Len() int64
 //@ inline func (f Frame[K]) RawSeriesAt(i int) Series
+//@ # the wall clock: any value
+//@ ignore func Now() TimeStamp
